@@ -28,7 +28,7 @@ def run(ctx):
             it.setdefault("f", [])
     codec.replay_cases(ctx, "bed-replay", cases, "bed text", lambda c: "text=%s" % bytes(c["text"]))
     vlib.log("  [R] %d model texts (canonical lines of every n, files) read by the real Reader" % len(cases))
-    leg_T(ctx, 600 if thorough else 100)
+    leg_T(ctx, 3000 if thorough else 100)
     ctx.exhaustive = True
 
 
